@@ -376,6 +376,9 @@ fn small_alphabet(pol: Pol, len: usize) -> Vec<Ev> {
             v.push(Ev::SetExpiry(-5));
         }
         Pol::Totp(_) => {
+            if len <= 3 {
+                v.push(Ev::Hammer(4, 0));
+            }
             v.push(Ev::Adv(1_500_000_000));
             v.push(Ev::SetExpiry(2));
             v.push(Ev::SetExpiry(-5));
@@ -438,7 +441,7 @@ fn main() {
     let cx = Check::from_args("C28", "exploration");
     cx.rule(
         "(i) real CredSoftLock under the server's call protocol: bounded-exhaustive event sequences (length <=4 quick / <=5 thorough) over \
-         {fail, good, +1ns, +1s, to-first-unlock(+0/+1ns), to-window-end(-1ns/0/+1ns), hammer x98 (password, length <=3), admin expiry +2s/-5s} for Password, Totp(30), Webauthn, Unrestricted, \
+         {fail, good, +1ns, +1s, to-first-unlock(+0/+1ns), to-window-end(-1ns/0/+1ns), hammer x98 (password) / x4 (totp) at length <=3, admin expiry +2s/-5s} for Password, Totp(30), Webauthn, Unrestricted, \
          started 1.5 s before a UTC midnight; random sequences of 10..60 events (hammer bursts up to 120 failures) on real time scales crossing UTC midnights and TOTP steps. \
          (ii) server paths: random attempt schedules (right/wrong password, TOTP, unix password, LDAP bind) against a real IdmServer. \
          oracle from the property text: refused for [t,t+1s) after a counted failure (clipped at the window end), lock length never shrinks inside a window (first-unlock found by bisection on clones), \
